@@ -283,11 +283,11 @@ func modelFiles(d migrate.Dir) ([]MFile, error) {
 }
 
 type execCase struct {
-	Dir      []dirFile   `json:"dir"`
-	Revs     []MRev      `json:"revs"`
-	Cfg      MCfg        `json:"cfg"`
-	N        int         `json:"n"`
-	Attempts []caseTry   `json:"attempts"`
+	Dir      []dirFile `json:"dir"`
+	Revs     []MRev    `json:"revs"`
+	Cfg      MCfg      `json:"cfg"`
+	N        int       `json:"n"`
+	Attempts []caseTry `json:"attempts"`
 }
 
 type caseTry struct {
